@@ -1,16 +1,17 @@
-"""Per-property registration: which harness binaries decide it, in which build configurations, with what evidence text."""
+"""Per-property registration lives in /verif/props/<ID>.json:
+  runs:        [[harness source name, build cfg, [tiers it runs in]], ...]
+  rule:        how cases are generated and what makes one non-trivial / distinct (goes into the evidence)
+  assumptions: what the check trusts
+  extra_flags / extra_link (optional): extra compiler / linker arguments for the harness
+  exhaustive_subspaces (optional): {"quick": [...], "thorough": [...]} sub-spaces enumerated completely
+"""
+import glob
+import json
+import os
 
-# runs: list of (harness source name, build cfg, tiers it runs in)
-PROPS = {
-    "C15": dict(
-        runs=[("c15", "rel", ("quick", "thorough"))],
-        rule=("Arguments are enumerated (every n in [0,2^18] quick / [0,2^22] thorough in 4096-wide ranges, 256-wide ranges within 4096 of "
-              "2^16, 2^24, 2^31, 65521^2, 2^32 and three other prime-square/semiprime limits, every positive int for nextpow2/ispow2 in "
-              "2^20-wide ranges thorough / <=2^24 + windows quick) or drawn by rapidcheck from six classes of 32-bit values (uniform, "
-              "log-uniform, p*q and p^2 for primes p,q near 2^16, top of range, smooth). isprime/factor/nextprime/primes are compared with a "
-              "sieve (<= 2^22+2^13) or deterministic Miller-Rabin; each call runs in a forked child with a progress watchdog. "
-              "Non-trivial = an argument beyond the library's 54-entry table (n > 251); distinct = distinct argument (or distinct range for pow2)."),
-        assumptions=["Miller-Rabin with bases 2,7,61 is deterministic for n < 4759123141",
-                     "termination clause is judged by a watchdog of 20 s + 2 ms per call, three confirmations: a 10x slowdown that still terminates is not detected"],
-    ),
-}
+_DIR = os.path.join(os.path.dirname(os.path.dirname(os.path.abspath(__file__))), "props")
+PROPS = {}
+for _p in sorted(glob.glob(os.path.join(_DIR, "C*.json"))):
+    _j = json.load(open(_p))
+    _j["runs"] = [(r[0], r[1], tuple(r[2])) for r in _j["runs"]]
+    PROPS[os.path.basename(_p)[:-5]] = _j
